@@ -42,10 +42,13 @@ SPEC = {
   "modelled rather than verified: pointer arithmetic and unsafe blocks as index arithmetic on blocks; the pivot/union layout as a tagged representation; Vec<u8> growth as RawVec::grow_amortized (compared exactly with the implementation)",
   "hooks in /repo (cfg hipstr_verif): verif_repr / verif_force_count / verif_bytes read or set the representation; the tracking global allocator of the harness"
  ],
+ "tieA_required": True,
  "tie": [
-  "tie/CounterEquiv.vo"
+  "tie/CounterEquiv.vo",
+  "tie/HandleEquiv.vo"
  ],
  "gen_items": [
+  "src/bytes/raw/allocated.rs:slice_unchecked + explicit_clone",
   "src/smart.rs:impl Kind for Rc::incr",
   "src/smart.rs:impl Kind for Rc::decr",
   "src/smart.rs:impl Kind for Rc::get",
